@@ -364,13 +364,13 @@ func GenHistory(t *rapid.T, hp *HistoryParams) Case {
 			c.Ops = append(c.Ops, genOp(t, kinds, hp, 0))
 			continue
 		}
-		maxKind := 6
+		maxKind := 7
 		if hp.Episodes {
-			maxKind = 12
+			maxKind = 13
 		}
 		sched := func() []int { return GenSchedule(t) }
 		switch rapid.IntRange(0, maxKind).Draw(t, "phraseKind") {
-		case 7: // old incarnation's events race with the replacement's scheduling
+		case 13: // old incarnation's events race with the replacement's scheduling
 			c.Ops = append(c.Ops, ab("recreate"), Op{K: "deliver"}, Op{K: "deliver"},
 				Op{K: "episode", Sub: []Op{ab("unbind"), ab("sched")}, Sched: sched()})
 		case 8: // two pods scheduled at the same time
@@ -384,6 +384,13 @@ func GenHistory(t *rapid.T, hp *HistoryParams) Case {
 		case 10: // filter now, bind later while something else runs
 			c.Ops = append(c.Ops, ab("create"), ab("filter"), Op{K: "episode", Sub: []Op{ab("bind"), rapid.SampledFrom([]Op{{K: "resync"},
 				ab("unbind"), ab("sched"), {K: "syncips"}}).Draw(t, "vs2")}, Sched: sched()})
+		case 7: // several pods of one app bound, one retired (its IP may be reserved), then scale down and retire another
+			a := rapid.IntRange(0, 7).Draw(t, "appPick")
+			for i := 0; i < 3; i++ {
+				c.Ops = append(c.Ops, Op{K: "create", A: a, B: rapid.IntRange(0, 5).Draw(t, "slot")}, ab("sched"))
+			}
+			c.Ops = append(c.Ops, ab("delete"), Op{K: "deliver"}, Op{K: "deliver"}, ab("unbind"), Op{K: "scale", A: a, B: rapid.IntRange(1, 2).Draw(t, "r")},
+				ab("delete"), Op{K: "deliver"}, Op{K: "deliver"}, ab("unbind"), ab("unbind"))
 		case 0: // a pod's life
 			c.Ops = append(c.Ops, ab("create"), ab("sched"), Op{K: "phase", A: rapid.IntRange(0, 7).Draw(t, "pa"), B: 0})
 		case 1: // retire a pod and handle its events
